@@ -14,9 +14,23 @@ import (
 type Conn struct {
 	net.Conn
 	remoteCall string
+
+	// The buffered reader used for the login exchange. Whatever it read
+	// beyond the last login line belongs to the session.
+	login *bufio.Reader
 }
 
 func (conn Conn) RemoteCall() string { return conn.remoteCall }
+
+// Read reads data from the connection.
+//
+// Bytes received together with the login exchange are returned first.
+func (conn Conn) Read(p []byte) (int, error) {
+	if conn.login != nil && conn.login.Buffered() > 0 {
+		return conn.login.Read(p)
+	}
+	return conn.Conn.Read(p)
+}
 
 type listener struct{ net.Listener }
 
@@ -54,5 +68,5 @@ func (ln listener) Accept() (net.Conn, error) {
 	fmt.Fprintf(conn, "Password :\r")
 	_, err = reader.ReadString('\r') //TODO
 
-	return &Conn{conn, remoteCall}, err
+	return &Conn{Conn: conn, remoteCall: remoteCall, login: reader}, err
 }
